@@ -21,26 +21,22 @@ impl<W: Copy, const N: usize, const P: usize> Iterator for Src<W, N, P> {
     }
 }
 
-/// command + repeated pixel + pixel stream on the 8-bit bus, N words per pixel
-fn par8_traffic_h<const N: usize>(amax: usize, cmax: u32, qmax: usize) {
+/// command + repeated pixel on the 8-bit bus, N words per pixel (strobe-only and general path)
+fn par8_repeat_h<const N: usize>(cmax: u32) {
     let mut pw = ParWorld::new(kani::any(), kani::any(), kani::any());
     let w: *mut ParWorld = &mut pw;
     let mut di = ParallelInterface::new(bus8(w), ParDc(w), ParWr(w));
     let cmd: u8 = kani::any();
-    let args: [u8; 3] = kani::any();
+    let args: [u8; 2] = kani::any();
     let na: usize = kani::any();
-    kani::assume(na <= 3 && na <= amax);
+    kani::assume(na <= 2);
     di.send_command(cmd, &args[..na]).unwrap();
     let p: [u8; N] = kani::any();
     let count: u32 = kani::any();
     kani::assume(count <= cmax);
     di.send_repeated_pixel(p, count).unwrap();
-    let q: [[u8; N]; 2] = kani::any();
-    let nq: usize = kani::any();
-    kani::assume(nq <= 2 && nq <= qmax);
-    di.send_pixels(Src::<u8, N, 2> { px: q, n: nq, k: 0 }).unwrap();
     let nrep = N as u32 * count;
-    let total = 1 + na as u32 + nrep + (N * nq) as u32;
+    let total = 1 + na as u32 + nrep;
     assert!(pw.edges == total, "[C07] one write strobe per word: instruction, parameters, pixel words");
     assert!(pw.dc_low_edges == 1 && pw.dc, "[C07] DC low only at the instruction's edge");
     if pw.probe_hit {
@@ -50,7 +46,7 @@ fn par8_traffic_h<const N: usize>(amax: usize, cmax: u32, qmax: usize) {
             assert!(got == cmd && !pw.probe_dc, "[C07] instruction latched with DC low");
         } else if j <= na as u32 {
             assert!(got == args[j as usize - 1] && pw.probe_dc, "[C07] parameter latched in order");
-        } else if j < 1 + na as u32 + nrep {
+        } else {
             let mut r = (j - 1 - na as u32) as usize;
             let mut t = 0;
             while t < 3 {
@@ -60,10 +56,6 @@ fn par8_traffic_h<const N: usize>(amax: usize, cmax: u32, qmax: usize) {
                 t += 1;
             }
             assert!(got == p[r] && pw.probe_dc, "[C07] repeated pixel word latched (also on the strobe-only path)");
-        } else {
-            let i = (j - 1 - na as u32 - nrep) as usize;
-            let (a, b) = if i >= N { (1, i - N) } else { (0, i) };
-            assert!(got == q[a][b] && pw.probe_dc, "[C07] streamed pixel word latched in order");
         }
     }
     let mut same = true;
@@ -75,8 +67,42 @@ fn par8_traffic_h<const N: usize>(amax: usize, cmax: u32, qmax: usize) {
         i += 1;
     }
     kani::cover!(count == cmax && same && pw.probe_hit && pw.probe_idx == na as u32 + nrep, "cover: strobe-only repeat, last word");
-    kani::cover!(count == cmax && !same && nq == qmax, "cover: general path + stream");
+    kani::cover!(count == cmax && !same, "cover: general path");
     kani::cover!(count == 0, "cover: zero count");
+}
+
+/// command + pixel stream on the 8-bit bus
+fn par8_stream_h<const N: usize>() {
+    let mut pw = ParWorld::new(kani::any(), kani::any(), kani::any());
+    let w: *mut ParWorld = &mut pw;
+    let mut di = ParallelInterface::new(bus8(w), ParDc(w), ParWr(w));
+    let cmd: u8 = kani::any();
+    let args: [u8; 3] = kani::any();
+    let na: usize = kani::any();
+    kani::assume(na <= 3);
+    di.send_command(cmd, &args[..na]).unwrap();
+    let q: [[u8; N]; 2] = kani::any();
+    let nq: usize = kani::any();
+    kani::assume(nq <= 2);
+    di.send_pixels(Src::<u8, N, 2> { px: q, n: nq, k: 0 }).unwrap();
+    let total = 1 + na as u32 + (N * nq) as u32;
+    assert!(pw.edges == total, "[C07] one write strobe per word: instruction, parameters, pixel words");
+    assert!(pw.dc_low_edges == 1 && pw.dc, "[C07] DC low only at the instruction's edge");
+    if pw.probe_hit {
+        let j = pw.probe_idx;
+        let got = (pw.probe_word & 0xff) as u8;
+        if j == 0 {
+            assert!(got == cmd && !pw.probe_dc, "[C07] instruction latched with DC low");
+        } else if j <= na as u32 {
+            assert!(got == args[j as usize - 1] && pw.probe_dc, "[C07] parameter latched in order");
+        } else {
+            let i = (j - 1 - na as u32) as usize;
+            let (a, b) = if i >= N { (1, i - N) } else { (0, i) };
+            assert!(got == q[a][b] && pw.probe_dc, "[C07] streamed pixel word latched in order");
+        }
+    }
+    kani::cover!(nq == 2 && q[0][N - 1] == q[1][0] && pw.probe_hit && pw.probe_idx == total - 1, "cover: equal consecutive words, last word");
+    kani::cover!(na == 3 && args[0] == cmd, "cover: parameter equal to the instruction");
 }
 
 fn par16_traffic_h() {
@@ -174,6 +200,8 @@ fn par8_fault_h() {
 
 /// `count * N` in the strobe-only path: looks only at checks reached before the loop
 fn par_repeat_overflow_h() {
+    // only the checks that precede the strobe loop are examined (unwinding cut at 5, no
+    // unwinding assertions): `count * N` must not overflow for any repeat count
     let mut pw = ParWorld::new(0, true, 0);
     let w: *mut ParWorld = &mut pw;
     let mut di = ParallelInterface::new(bus8(w), ParDc(w), ParWr(w));
@@ -191,14 +219,18 @@ macro_rules! h {
         }
     };
 }
-//@ props=C07 inst="ParallelInterface<Generic8BitBus>, 2 words per pixel (Rgb565)" bounds="command with 0..=2 parameters, repeat count 0..=2 (symbolic pixel: strobe-only and general path), stream of 0..=1 pixels; symbolic initial pin levels; symbolic strobe index" timeout=1200 mem=8
-h!(c07_par8_n2, 9, par8_traffic_h::<2>(2, 2, 1));
-//@ props=C07 inst="ParallelInterface<Generic8BitBus>, 3 words per pixel (Rgb666)" bounds="command with 0..=1 parameters, repeat count 0..=2, stream of 0..=1 pixels" timeout=1800 mem=12
-h!(c07_par8_n3, 12, par8_traffic_h::<3>(1, 2, 1));
-//@ props=C07 tier=thorough inst="ParallelInterface<Generic8BitBus>, 2 words per pixel" bounds="0..=3 parameters, repeat count 0..=3, stream of 0..=2 pixels" timeout=3000 mem=14
-h!(c07_par8_n2_t, 9, par8_traffic_h::<2>(3, 3, 2));
-//@ props=C07 tier=thorough required=no inst="ParallelInterface<Generic8BitBus>, 3 words per pixel" bounds="0..=3 parameters, repeat count 0..=3, stream of 0..=2 pixels" timeout=5400 mem=24
-h!(c07_par8_n3_t, 12, par8_traffic_h::<3>(3, 3, 2));
+//@ props=C07 inst="ParallelInterface<Generic8BitBus>: command + send_repeated_pixel, 2 words per pixel" bounds="0..=2 parameters, repeat count 0..=3 (symbolic pixel: strobe-only and general path); symbolic initial pin levels; symbolic strobe index" timeout=900 mem=8
+h!(c07_par8_repeat_n2, 8, par8_repeat_h::<2>(3));
+//@ props=C07 inst="ParallelInterface<Generic8BitBus>: command + send_repeated_pixel, 3 words per pixel" bounds="0..=2 parameters, repeat count 0..=1 (strobe-only and general path)" timeout=1200 mem=8
+h!(c07_par8_repeat_n3, 6, par8_repeat_h::<3>(1));
+//@ props=C07 tier=thorough inst="ParallelInterface<Generic8BitBus>: command + send_repeated_pixel, 3 words per pixel" bounds="0..=2 parameters, repeat count 0..=2" timeout=2400 mem=10
+h!(c07_par8_repeat_n3_2, 8, par8_repeat_h::<3>(2));
+//@ props=C07 inst="ParallelInterface<Generic8BitBus>: command + send_pixels, 2 words per pixel" bounds="0..=3 parameters, stream of 0..=2 pixels" timeout=900 mem=8
+h!(c07_par8_stream_n2, 6, par8_stream_h::<2>());
+//@ props=C07 inst="ParallelInterface<Generic8BitBus>: command + send_pixels, 3 words per pixel" bounds="0..=3 parameters, stream of 0..=2 pixels" timeout=1200 mem=8
+h!(c07_par8_stream_n3, 6, par8_stream_h::<3>());
+//@ props=C07 tier=thorough required=no inst="ParallelInterface<Generic8BitBus>: command + send_repeated_pixel, 3 words per pixel" bounds="0..=2 parameters, repeat count 0..=4" timeout=5400 mem=24
+h!(c07_par8_repeat_n3_t, 14, par8_repeat_h::<3>(4));
 //@ props=C07 inst="ParallelInterface<Generic16BitBus>, 1 word per pixel" bounds="same" timeout=1200 mem=8
 h!(c07_par16, 6, par16_traffic_h());
 //@ props=C07,C12 inst="Generic8BitBus::set_value x 3" bounds="3 symbolic values from a symbolic initial pin state under an arbitrary 64-bit fault mask over pin operations (two calls cover every (state, transition) pair)" timeout=400 mem=4
@@ -217,3 +249,5 @@ h!(c07_bus16_faults, 4, {
 });
 //@ props=C12 inst="ParallelInterface<Generic8BitBus>: send_command / send_pixels / send_repeated_pixel" bounds="symbolic index of the failing pin operation; args <= 2, <= 2 pixels" timeout=900 mem=6
 h!(c12_par8_fault, 6, par8_fault_h());
+//@ props=C07,C02 inst="ParallelInterface::send_repeated_pixel, strobe-only path, 3 words per pixel" bounds="repeat count over all of u32; only the checks that precede the strobe loop (unwinding cut at 5, unwinding assertions off)" timeout=600 mem=6 extra="--no-unwinding-checks"
+h!(c07_repeat_count_any, 5, par_repeat_overflow_h());
